@@ -266,4 +266,11 @@ LADDER = {"api": _ladder_api}
 
 
 def main(tier, seed):
-    return runner.main(ID, __name__, jobs(tier), tier, seed, META)
+    rc = runner.main(ID, __name__, jobs(tier), tier, seed, META)
+    if rc == 1:
+        return rc
+    import os
+    from .. import e2
+    harness = os.path.join(os.path.dirname(os.path.dirname(os.path.abspath(__file__))), "e2h", "hex_harness.py")
+    rc2 = e2.run_extra(ID, harness, tier, label="hex_clause_crosshair")
+    return 1 if rc2 == 1 else (2 if 2 in (rc, rc2) else 0)
